@@ -70,6 +70,13 @@ func main() {
 				}
 				extra = append(extra, t)
 			}
+			// the same requests as a client could send them with percent-escapes (the router routes on the escaped form,
+			// for the request's own method and for the probing of the other methods alike)
+			for _, q := range c.Reqs[:len(c.Reqs)/2] {
+				if t, ok := route.Escaped(r, q); ok {
+					extra = append(extra, t)
+				}
+			}
 			c.Reqs = append(c.Reqs, extra...)
 			if r.IntN(3) == 0 {
 				c.Churn = r.Uint64() | 1
